@@ -24,7 +24,7 @@ use std::{
 
 use async_trait::async_trait;
 use c2pa::{
-    assertions::DataHash,
+    assertions::{BoxHash, DataHash},
     dynamic_assertion::{AsyncDynamicAssertion, DynamicAssertion, DynamicAssertionContent, PartialClaim},
     http::{
         http::{header, Request, Response},
@@ -61,13 +61,19 @@ struct Case {
     /// resolver answer mode / tamper selector
     mode: u8,
     def: DefSpec,
+    /// 0: definition from vh::defgen / fixture input; k+1: "signable but invalid on validation" definition of kind k
+    /// (INV_KINDS), varied by `def.seed`. For reading / import pairs the input is an asset (sidecar, remote store,
+    /// archive) signed from that definition with verify_after_sign off.
+    #[serde(default)]
+    inv: u8,
 }
 
-const N_OPS: u8 = 9;
+const N_OPS: u8 = 10;
 const N_SIGNERS: u8 = 8;
 const N_SETTINGS: u8 = 6;
 const TSA_URL: &str = "http://tsa.verif.invalid/ts";
 const REMOTE_URL: &str = "http://manifests.verif.invalid/store.c2pa";
+const BOX_HASH_LABEL: &str = "c2pa.hash.boxes";
 
 fn def_opts() -> DefOpts {
     DefOpts {
@@ -94,8 +100,142 @@ fn op_name(op: u8) -> &'static str {
         5 => "sign_data_hashed_embeddable",
         6 => "add_ingredient_from_stream",
         7 => "add_ingredient_from_archive",
-        _ => "remote_manifest_read",
+        8 => "remote_manifest_read",
+        _ => "sign_box_hashed_embeddable",
     }
+}
+
+// ------------------------------------------------------------------------------------------------
+// "signable but invalid on validation" definitions
+// ------------------------------------------------------------------------------------------------
+
+/// Each kind builds and signs (verify_after_sign off) but post-sign / read validation flags a failure
+/// (sdk/src/claim.rs verify_actions). Whether a generated definition really is of that class is established per
+/// case from the synchronous outcome and counted (`pair_<op>_invalid_def` vs `..._unconfirmed`).
+const INV_KINDS: [&str; 10] = [
+    "created-without-digitalSourceType",
+    "no-created-or-opened-first-action",
+    "opened-without-ingredient-parameters",
+    "placed-or-removed-without-ingredient-reference",
+    "translated-without-languages",
+    "empty-action-name",
+    "placed-ingredient-wrong-relationship",
+    "redacted-unresolvable-uri",
+    "transcoded-ingredient-not-parent",
+    "empty-actions-array",
+];
+
+const DST: [&str; 4] = [
+    "http://c2pa.org/digitalsourcetype/empty",
+    "http://cv.iptc.org/newscodes/digitalsourcetype/digitalCapture",
+    "http://cv.iptc.org/newscodes/digitalsourcetype/algorithmicMedia",
+    "http://cv.iptc.org/newscodes/digitalsourcetype/trainedAlgorithmicMedia",
+];
+
+fn inv_definition(kind: u8, seed: u64) -> Value {
+    let k = kind as usize % INV_KINDS.len();
+    let mut rng = vh::rng::SplitMix64::new(seed ^ 0x0C40_1BAD ^ ((k as u64) << 40));
+    let benign = |rng: &mut vh::rng::SplitMix64| {
+        let name = *rng.pick(&["c2pa.edited", "c2pa.color_adjustments", "c2pa.cropped", "c2pa.resized", "c2pa.filtered", "c2pa.drawing", "org.verif.custom"]);
+        let mut a = json!({"action": name});
+        if rng.bool() {
+            a["description"] = json!(format!("step {}", rng.below(1000)));
+        }
+        if rng.chance(1, 3) {
+            a["parameters"] = json!({"org.verif.amount": rng.below(100)});
+        }
+        a
+    };
+    let created = |rng: &mut vh::rng::SplitMix64| json!({"action": "c2pa.created", "digitalSourceType": *rng.pick(&DST)});
+    let mut ingredients: Vec<Value> = vec![];
+    let ing_id = format!("ing-{}", rng.below(100));
+    let mut actions: Vec<Value> = match k {
+        0 => {
+            let mut c = json!({"action": "c2pa.created"});
+            if rng.bool() {
+                c["description"] = json!("created without a source type");
+            }
+            vec![c]
+        }
+        1 => vec![benign(&mut rng)],
+        2 => vec![created(&mut rng), json!({"action": "c2pa.opened"})],
+        3 => {
+            let name = *rng.pick(&["c2pa.placed", "c2pa.removed"]);
+            let bad = if rng.bool() { json!({"action": name}) } else { json!({"action": name, "parameters": {"org.verif.amount": 1}}) };
+            vec![created(&mut rng), bad]
+        }
+        4 => {
+            let bad = match rng.below(3) {
+                0 => json!({"action": "c2pa.translated"}),
+                1 => json!({"action": "c2pa.translated", "parameters": {"sourceLanguage": "en"}}),
+                _ => json!({"action": "c2pa.translated", "parameters": {"targetLanguage": "de"}}),
+            };
+            vec![created(&mut rng), bad]
+        }
+        5 => vec![created(&mut rng), json!({"action": ""})],
+        6 => {
+            ingredients.push(json!({"title": format!("component {}", rng.below(100)), "format": "image/jpeg", "relationship": *rng.pick(&["inputTo", "parentOf"]), "label": ing_id}));
+            let name = *rng.pick(&["c2pa.placed", "c2pa.removed"]);
+            vec![created(&mut rng), json!({"action": name, "parameters": {"ingredientIds": [ing_id]}})]
+        }
+        7 => {
+            let urn = format!("urn:c2pa:{:08x}-0000-4000-8000-{:012x}", rng.below(1 << 32), rng.below(1 << 48));
+            let target = *rng.pick(&["c2pa.metadata", "c2pa.thumbnail.claim", "org.verif.note"]);
+            vec![created(&mut rng), json!({"action": "c2pa.redacted", "parameters": {"redacted": format!("self#jumbf=/c2pa/{urn}/c2pa.assertions/{target}")}})]
+        }
+        8 => {
+            ingredients.push(json!({"title": format!("source {}", rng.below(100)), "format": "image/png", "relationship": *rng.pick(&["inputTo", "componentOf"]), "label": ing_id}));
+            let name = *rng.pick(&["c2pa.transcoded", "c2pa.repackaged"]);
+            vec![created(&mut rng), json!({"action": name, "parameters": {"ingredientIds": [ing_id]}})]
+        }
+        _ => vec![],
+    };
+    // benign company after the first action (the first one decides the created/opened rule)
+    if k != 9 {
+        for _ in 0..rng.below(3) {
+            let at = 1 + rng.usize(actions.len());
+            actions.insert(at.min(actions.len()), benign(&mut rng));
+        }
+    }
+    let mut assertions = vec![json!({"label": *rng.pick(&["c2pa.actions", "c2pa.actions.v2"]), "data": {"actions": actions}})];
+    if rng.bool() {
+        assertions.push(json!({"label": "org.verif.note", "data": {"note": "invalid-on-validation", "n": rng.below(1000)}}));
+    }
+    let mut d = json!({
+        "claim_generator_info": [{"name": "verif-harness", "version": format!("0.{}", rng.below(10))}],
+        "assertions": assertions,
+    });
+    if rng.chance(3, 4) {
+        d["title"] = json!(format!("c40 invalid {} #{}", INV_KINDS[k], rng.below(10_000)));
+    }
+    if !ingredients.is_empty() {
+        d["ingredients"] = json!(ingredients);
+    }
+    d
+}
+
+/// BoxHash assertion + carrier for the box-hashed embeddable pair: the repository's own fixtures
+/// (boxhash.jpg with boxhash.json / boxhash_with_exclusion.json, as in the SDK's builder tests) and the bare
+/// `application/c2pa` box map (test_builder_box_hashed_embeddable_min).
+fn boxhash_input(a: u8) -> (String, Value, Option<(Vec<u8>, usize, usize)>) {
+    let c2pa_only = json!({"boxes": [{"names": ["C2PA"], "alg": "sha256", "hash": [], "pad": []}]});
+    let which = a % 3;
+    if which == 2 {
+        return ("application/c2pa".into(), c2pa_only, None);
+    }
+    let name = if which == 0 { "boxhash.json" } else { "boxhash_with_exclusion.json" };
+    let bh = std::fs::read(format!("{}/{name}", sdk::FIXTURES)).ok().and_then(|b| serde_json::from_slice::<Value>(&b).ok());
+    let jpg = std::fs::read(format!("{}/boxhash.jpg", sdk::FIXTURES)).ok();
+    if let (Some(bh), Some(jpg)) = (bh, jpg) {
+        if let Ok(spans) = vh::walk::manifest_spans("jpeg", &jpg) {
+            if let (Some(start), Some(end)) = (spans.iter().map(|s| s.0).min(), spans.iter().map(|s| s.0 + s.1).max()) {
+                if spans.iter().map(|s| s.1).sum::<usize>() == end - start {
+                    return ("image/jpeg".into(), bh, Some((jpg, start, end)));
+                }
+            }
+        }
+    }
+    ("application/c2pa".into(), c2pa_only, None)
 }
 
 // ------------------------------------------------------------------------------------------------
@@ -692,6 +832,70 @@ fn tampered(bytes: &[u8], mode: u8) -> Vec<u8> {
 struct Env {
     settings: Value,
     mock: Mock,
+    /// input signed from an invalid-on-validation definition (reading / import pairs with `inv > 0`)
+    inv: Option<InvInput>,
+}
+
+struct InvInput {
+    fmt: String,
+    asset: Vec<u8>,
+    store: Vec<u8>,
+    archive: Vec<u8>,
+}
+
+/// Input for the reading / import pairs: the invalid-on-validation definition signed synchronously with
+/// verify_after_sign off (embedded; remote reference + sidecar store for ops 3 and 8; `to_archive` for op 7).
+fn inv_input(c: &Case) -> Result<InvInput, String> {
+    let op = c.op % N_OPS;
+    let def = inv_definition(c.inv - 1, c.def.seed);
+    let st = settings_json(1, false);
+    let (fmt, src) = src_asset(c.a);
+    let signer = sdk::signer(sdk::ALGS[c.alg as usize % sdk::ALGS.len()]);
+    let r = vh::catch(|| {
+        let mut b = Builder::from_context(sdk::context_with(&st)).with_definition(def.to_string())?;
+        if op == 7 {
+            // add_ingredient_from_archive wants an archive that carries an ingredient: an asset signed from a sibling
+            // invalid definition of the same kind, inside a working store built from the invalid definition
+            let ing_def = inv_definition(c.inv - 1, c.def.seed ^ 0x5151);
+            let mut ib = Builder::from_context(sdk::context_with(&st)).with_definition(ing_def.to_string())?;
+            let mut signed = Cursor::new(Vec::new());
+            ib.sign(&*signer, &fmt, &mut Cursor::new(src.clone()), &mut signed)?;
+            b.add_ingredient_from_stream(json!({"title": "invalid ingredient", "relationship": "componentOf"}).to_string(), &fmt, &mut Cursor::new(signed.into_inner()))?;
+            let mut arch = Cursor::new(Vec::new());
+            b.to_archive(&mut arch)?;
+            return Ok::<_, c2pa::Error>(InvInput { fmt: fmt.clone(), asset: vec![], store: vec![], archive: arch.into_inner() });
+        }
+        if matches!(op, 3 | 8) {
+            b.set_remote_url(REMOTE_URL);
+            b.set_no_embed(true);
+        }
+        let mut out = Cursor::new(Vec::new());
+        let store = b.sign(&*signer, &fmt, &mut Cursor::new(src.clone()), &mut out)?;
+        Ok(InvInput { fmt: fmt.clone(), asset: out.into_inner(), store, archive: vec![] })
+    });
+    match r {
+        Ok(Ok(i)) => Ok(i),
+        Ok(Err(e)) => Err(err_kind(&e)),
+        Err(p) => Err(format!("panic:{}", vh::core::panic_site(&p))),
+    }
+}
+
+fn builder_sync(ctx: Context, gd: &GenDef, inv: &Option<Value>) -> c2pa::Result<Builder> {
+    match inv {
+        Some(d) => Builder::from_context(ctx).with_definition(d.to_string()),
+        None => gd.builder(ctx, &gd.json),
+    }
+}
+
+async fn builder_async(ctx: Context, gd: &GenDef, inv: &Option<Value>) -> c2pa::Result<Builder> {
+    match inv {
+        Some(d) => Builder::from_context(ctx).with_definition(d.to_string()),
+        None => {
+            let mut b = Builder::from_context(ctx).with_definition(gd.json.to_string())?;
+            populate_async(gd, &mut b).await?;
+            Ok(b)
+        }
+    }
 }
 
 async fn populate_async(gd: &GenDef, b: &mut Builder) -> c2pa::Result<()> {
@@ -715,6 +919,7 @@ fn run_flavour(c: &Case, env: &Env, is_async: bool) -> (Outcome, Vec<(String, u3
     let inp = inputs();
     let ctx = make_ctx(&env.settings, &env.mock, &trace);
     let signer = TestSigner::new(c.alg, c.signer);
+    let inv_def = (c.inv > 0).then(|| inv_definition(c.inv - 1, c.def.seed));
     let out = match c.op % N_OPS {
         0 | 1 => {
             let via_ctx = c.op % N_OPS == 1;
@@ -725,8 +930,7 @@ fn run_flavour(c: &Case, env: &Env, is_async: bool) -> (Outcome, Vec<(String, u3
                 let mut out = Cursor::new(Vec::new());
                 if is_async {
                     block_on(async {
-                        let mut b = Builder::from_context(ctx).with_definition(gd.json.to_string())?;
-                        populate_async(&gd, &mut b).await?;
+                        let mut b = builder_async(ctx, &gd, &inv_def).await?;
                         if via_ctx {
                             b.save_to_stream_async(&fmt, &mut Cursor::new(src.clone()), &mut out).await?;
                         } else {
@@ -735,7 +939,7 @@ fn run_flavour(c: &Case, env: &Env, is_async: bool) -> (Outcome, Vec<(String, u3
                         Ok::<_, c2pa::Error>(())
                     })?;
                 } else {
-                    let mut b = gd.builder(ctx, &gd.json)?;
+                    let mut b = builder_sync(ctx, &gd, &inv_def)?;
                     if via_ctx {
                         b.save_to_stream(&fmt, &mut Cursor::new(src.clone()), &mut out)?;
                     } else {
@@ -747,7 +951,13 @@ fn run_flavour(c: &Case, env: &Env, is_async: bool) -> (Outcome, Vec<(String, u3
             wrap(r, |b| readback(&fmt, &b))
         }
         2 => {
-            let (fmt, bytes, _) = &inp.assets[c.a as usize % inp.assets.len()];
+            let (fmt, bytes) = match &env.inv {
+                Some(i) => (&i.fmt, &i.asset),
+                None => {
+                    let (f, b, _) = &inp.assets[c.a as usize % inp.assets.len()];
+                    (f, b)
+                }
+            };
             let bytes = tampered(bytes, c.mode);
             let r = vh::catch(|| {
                 if is_async {
@@ -759,7 +969,13 @@ fn run_flavour(c: &Case, env: &Env, is_async: bool) -> (Outcome, Vec<(String, u3
             wrap(r, |r| Outcome::Ok(same_of(&r)))
         }
         3 => {
-            let (store, fmt, asset, _) = &inp.sidecars[c.a as usize % inp.sidecars.len()];
+            let (store, fmt, asset) = match &env.inv {
+                Some(i) => (&i.store, &i.fmt, &i.asset),
+                None => {
+                    let (s, f, a, _) = &inp.sidecars[c.a as usize % inp.sidecars.len()];
+                    (s, f, a)
+                }
+            };
             let asset = tampered(asset, c.mode);
             let store = if c.mode % 8 >= 4 { tampered(store, c.mode / 4) } else { store.clone() };
             let r = vh::catch(|| {
@@ -787,8 +1003,14 @@ fn run_flavour(c: &Case, env: &Env, is_async: bool) -> (Outcome, Vec<(String, u3
             // data-hashed embeddable manifest for a JPEG: placeholder after SOI, caller-built DataHash
             let (fmt, src) = src_asset(0 + 16 * (c.a % 4));
             let r = vh::catch(|| {
-                let mut b = Builder::from_context(ctx).with_definition(sdk::simple_definition("c40 embeddable").to_string())?;
-                b.set_intent(BuilderIntent::Create(DigitalSourceType::Empty));
+                let mut b = match &inv_def {
+                    Some(d) => Builder::from_context(ctx).with_definition(d.to_string())?,
+                    None => {
+                        let mut b = Builder::from_context(ctx).with_definition(sdk::simple_definition("c40 embeddable").to_string())?;
+                        b.set_intent(BuilderIntent::Create(DigitalSourceType::Empty));
+                        b
+                    }
+                };
                 let ph = b.data_hashed_placeholder(Signer::reserve_size(&*signer), &fmt)?;
                 let at = 2usize;
                 let mut out = Vec::with_capacity(src.len() + ph.len());
@@ -814,7 +1036,13 @@ fn run_flavour(c: &Case, env: &Env, is_async: bool) -> (Outcome, Vec<(String, u3
             })
         }
         6 => {
-            let (fmt, bytes, _) = &inp.assets[c.a as usize % inp.assets.len()];
+            let (fmt, bytes) = match &env.inv {
+                Some(i) => (&i.fmt, &i.asset),
+                None => {
+                    let (f, b, _) = &inp.assets[c.a as usize % inp.assets.len()];
+                    (f, b)
+                }
+            };
             let bytes = tampered(bytes, c.mode);
             let rel = ["componentOf", "parentOf", "inputTo"][c.alg as usize % 3];
             let r = vh::catch(|| {
@@ -828,7 +1056,10 @@ fn run_flavour(c: &Case, env: &Env, is_async: bool) -> (Outcome, Vec<(String, u3
             wrap(r, |v| Outcome::Ok(json!({"ingredient": v})))
         }
         7 => {
-            let (bytes, _) = &inp.archives[c.a as usize % inp.archives.len()];
+            let bytes = match &env.inv {
+                Some(i) => &i.archive,
+                None => &inp.archives[c.a as usize % inp.archives.len()].0,
+            };
             let bytes = tampered(bytes, c.mode);
             let r = vh::catch(|| {
                 let mut b = Builder::from_context(ctx).with_definition(sdk::simple_definition("c40 archive ingredient").to_string())?;
@@ -844,11 +1075,46 @@ fn run_flavour(c: &Case, env: &Env, is_async: bool) -> (Outcome, Vec<(String, u3
             });
             wrap(r, |v| Outcome::Ok(json!({"ingredient": v})))
         }
+        9 => {
+            // box-hashed embeddable manifest: caller-supplied BoxHash assertion, composed manifest returned
+            let (fmt, bh_json, carrier) = boxhash_input(c.a);
+            let gd = defgen::expand_with(&c.def, &def_opts());
+            let r = vh::catch(|| {
+                let bh: BoxHash = serde_json::from_value(bh_json.clone()).map_err(|e| c2pa::Error::BadParam(format!("box hash json: {e}")))?;
+                if is_async {
+                    block_on(async {
+                        let mut b = builder_async(ctx, &gd, &inv_def).await?;
+                        b.add_assertion(BOX_HASH_LABEL, &bh)?;
+                        b.sign_box_hashed_embeddable_async(&AsyncView(signer.clone()), &fmt).await
+                    })
+                } else {
+                    let mut b = builder_sync(ctx, &gd, &inv_def)?;
+                    b.add_assertion(BOX_HASH_LABEL, &bh)?;
+                    b.sign_box_hashed_embeddable(&*signer, &fmt)
+                }
+            });
+            wrap(r, |m| match &carrier {
+                Some((jpg, start, end)) => {
+                    let mut out = Vec::with_capacity(jpg.len() + m.len());
+                    out.extend_from_slice(&jpg[..*start]);
+                    out.extend_from_slice(&m);
+                    out.extend_from_slice(&jpg[*end..]);
+                    readback(&fmt, &out)
+                }
+                None => readback(&fmt, &m),
+            })
+        }
         _ => {
-            if inp.remote.is_empty() {
+            if env.inv.is_none() && inp.remote.is_empty() {
                 return (Outcome::Err("no remote input".into()), vec![], 0);
             }
-            let (fmt, asset, _) = &inp.remote[c.a as usize % inp.remote.len()];
+            let (fmt, asset) = match &env.inv {
+                Some(i) => (&i.fmt, &i.asset),
+                None => {
+                    let (f, a, _) = &inp.remote[c.a as usize % inp.remote.len()];
+                    (f, a)
+                }
+            };
             let r = vh::catch(|| {
                 if is_async {
                     block_on(Reader::from_context(ctx).with_stream_async(fmt, Cursor::new(asset.clone())))
@@ -863,14 +1129,32 @@ fn run_flavour(c: &Case, env: &Env, is_async: bool) -> (Outcome, Vec<(String, u3
     (out, tr, signer.tsa_calls.load(Ordering::SeqCst))
 }
 
-fn judge(run: &Run, c: &Case, selftest: &str) -> CaseResult {
+fn judge(run: &Run, c_in: &Case, selftest: &str) -> CaseResult {
     let inp = inputs();
-    let op = c.op % N_OPS;
+    let op = c_in.op % N_OPS;
     let remote = op == 8;
-    let store = if remote && !inp.remote.is_empty() { inp.remote[c.a as usize % inp.remote.len()].2.clone() } else { vec![] };
-    let env = Env { settings: settings_json(c.settings, remote), mock: Mock { mode: c.mode, manifest: Arc::new(store), calls: Arc::new(AtomicUsize::new(0)) } };
+    // with_fragment has no harness-signed input (fragmented signing is file based): fixture input only
+    let c = &Case { inv: if op == 4 { 0 } else { c_in.inv }, ..c_in.clone() };
+    let inv_kind = (c.inv > 0).then(|| (c.inv - 1) as usize % INV_KINDS.len());
+    let signing = matches!(op, 0 | 1 | 5 | 9);
+    let inv = match inv_kind {
+        Some(k) if !signing => match inv_input(c) {
+            Ok(i) => Some(i),
+            Err(e) => {
+                // not of the class "signable": nothing to compare
+                run.count(&format!("pair_{}_invalid_def_input_not_signable:{}:{e}", op_name(op), INV_KINDS[k]));
+                return Ok(());
+            }
+        },
+        _ => None,
+    };
+    let store = match &inv {
+        Some(i) if remote => i.store.clone(),
+        _ if remote && !inp.remote.is_empty() => inp.remote[c.a as usize % inp.remote.len()].2.clone(),
+        _ => vec![],
+    };
+    let env = Env { settings: settings_json(c.settings, remote), mock: Mock { mode: c.mode, manifest: Arc::new(store), calls: Arc::new(AtomicUsize::new(0)) }, inv };
     run.count(&format!("op:{}", op_name(op)));
-    let signing = matches!(op, 0 | 1 | 5);
     if signing {
         run.count(&format!("signer_variant:{}", c.signer % N_SIGNERS));
         run.count(&format!("settings_variant:{}", c.settings % N_SETTINGS));
@@ -890,6 +1174,43 @@ fn judge(run: &Run, c: &Case, selftest: &str) -> CaseResult {
     if selftest == "async-error" && signing && c.signer % N_SIGNERS == 2 {
         a = Outcome::Err("OtherError".into());
     }
+    if selftest == "async-skips-verify" && op == 9 {
+        // emulates an async branch of sign_box_hashed_embeddable that does not run verify-after-sign: the async
+        // answer is the one the SDK gives with verify.verify_after_sign = false
+        let mut st = env.settings.clone();
+        sdk::merge(&mut st, &json!({"verify": {"verify_after_sign": false}}));
+        let env2 = Env { settings: st, mock: env.mock.clone(), inv: None };
+        a = run_flavour(c, &env2, true).0;
+        env.mock.calls.swap(0, Ordering::SeqCst);
+    }
+
+    // the class "signable but invalid on validation" is established from the synchronous outcome
+    let mut inv_confirmed = false;
+    if let Some(k) = inv_kind {
+        let vas_on = c.settings % N_SETTINGS != 1;
+        let flagged = |v: &Value| {
+            let t = v.to_string();
+            t.contains("assertion.action") || t.contains("assertion.notRedacted")
+        };
+        inv_confirmed = match &s {
+            // ValidationRule: the validator stops at the rule (empty actions array), on post-sign validation or on
+            // reading the signed output / input back
+            Outcome::Err(e) => (signing && vas_on && e == "InvalidManifest") || (!matches!(op, 6 | 7) && e == "ValidationRule"),
+            Outcome::Ok(v) if matches!(op, 6 | 7) => flagged(v),
+            Outcome::Ok(v) => v["verdict"]["state"] == "Invalid" && flagged(&v["verdict"]),
+            Outcome::Panic(_) => false,
+        };
+        if inv_confirmed {
+            run.count("invalid_on_validation_defs");
+            run.count(&format!("pair_{}_invalid_def", op_name(op)));
+            run.count(&format!("invalid_def_kind:{}", INV_KINDS[k]));
+            if signing {
+                run.count(&format!("pair_{}_invalid_def:verify_after_sign_{}", op_name(op), if vas_on { "on" } else { "off" }));
+            }
+        } else {
+            run.count(&format!("pair_{}_invalid_def_unconfirmed:{}:{}", op_name(op), INV_KINDS[k], s.short()));
+        }
+    }
 
     run.count(&format!("{}:sync:{}", op_name(op), match &s { Outcome::Ok(v) => format!("ok:{}", v["verdict"]["state"].as_str().unwrap_or("-")), Outcome::Err(e) => format!("err:{e}"), Outcome::Panic(_) => "panic".into() }));
     run.count(if s_trace == a_trace { "progress_trace:equal" } else { "progress_trace:differs(recorded only)" });
@@ -905,11 +1226,11 @@ fn judge(run: &Run, c: &Case, selftest: &str) -> CaseResult {
     }
 
     // non-triviality: a `_sync`-branch site beyond the plain entry point is exercised
-    let nt = match op {
-        0 | 1 | 5 => c.signer % N_SIGNERS != 0 || c.settings % N_SETTINGS != 1,
+    let nt = inv_confirmed || match op {
+        0 | 1 | 5 | 9 => c.signer % N_SIGNERS != 0 || c.settings % N_SETTINGS != 1,
         8 => true,
         2 | 6 => {
-            let name = &inp.assets[c.a as usize % inp.assets.len()].2;
+            let name = if env.inv.is_some() { "harness-signed" } else { inp.assets[c.a as usize % inp.assets.len()].2.as_str() };
             name.contains("ocsp") || name.contains("CAWG") || name.contains("harness-signed") || c.settings % N_SETTINGS == 4
         }
         _ => sync_calls + async_calls > 0,
@@ -955,10 +1276,22 @@ fn judge(run: &Run, c: &Case, selftest: &str) -> CaseResult {
         _ => format!("sync {} vs async {}", s.short(), a.short()),
     };
     let what = match op {
+        _ if inv_kind.is_some() => format!(
+            "invalid-on-validation definition kind {} ({}) seed {} = {}, source kind {}, alg {}, signer variant {}, settings variant {}",
+            c.inv - 1,
+            INV_KINDS[inv_kind.unwrap_or(0)],
+            c.def.seed,
+            inv_definition(c.inv - 1, c.def.seed),
+            vh::assets::KINDS[c.a as usize % 16],
+            sdk::ALGS[c.alg as usize % sdk::ALGS.len()],
+            c.signer % N_SIGNERS,
+            c.settings % N_SETTINGS
+        ),
         2 | 6 => format!("input {}", inp.assets[c.a as usize % inp.assets.len()].2),
         3 => format!("input {}", inp.sidecars[c.a as usize % inp.sidecars.len()].3),
         7 => format!("input {}", inp.archives[c.a as usize % inp.archives.len()].1),
         8 => format!("resolver mode {}", c.mode % 6),
+        9 => format!("box hash input {}, signer variant {}, settings variant {}", c.a % 3, c.signer % N_SIGNERS, c.settings % N_SETTINGS),
         _ => format!("source kind {}, signer variant {}, settings variant {}", vh::assets::KINDS[c.a as usize % 16], c.signer % N_SIGNERS, c.settings % N_SETTINGS),
     };
     Err(Fail::new(format!("C40:{}:{class}", op_name(op)), format!("{} ({what}, tamper/mode {}): {detail}", op_name(op), c.mode)))
@@ -979,16 +1312,31 @@ fn case_strategy() -> impl Strategy<Value = Case> {
         12 => Just(6u8),
         5 => Just(7u8),
         7 => Just(8u8),
+        14 => Just(9u8),
     ];
-    (op, 0u8..64, 0u8..7, prop_oneof![3 => Just(0u8), 7 => 1u8..N_SIGNERS], 0u8..N_SETTINGS, prop_oneof![2 => Just(0u8), 1 => 1u8..24], defgen::spec_strategy(def_opts()))
-        .prop_map(|(op, a, alg, signer, settings, mode, def)| Case { op, a, alg, signer, settings, mode, def })
+    let inv = prop_oneof![11 => Just(0u8), 9 => 1u8..=(INV_KINDS.len() as u8)];
+    (op, 0u8..64, 0u8..7, prop_oneof![3 => Just(0u8), 7 => 1u8..N_SIGNERS], 0u8..(2 * N_SETTINGS), prop_oneof![2 => Just(0u8), 1 => 1u8..24], defgen::spec_strategy(def_opts()), inv)
+        .prop_map(|(op, a, alg, signer, s, mode, def, inv)| {
+            // invalid-on-validation definitions: verify_after_sign on / off with equal weight (off = variant 1)
+            let settings = if inv == 0 {
+                s % N_SETTINGS
+            } else if s % 2 == 1 {
+                1
+            } else {
+                [0u8, 0, 0, 3, 2, 5][(s / 2) as usize % 6]
+            };
+            // the signer / tamper dimensions are explored with valid definitions; keep most invalid ones plain so the
+            // definition is what decides the outcome
+            let (signer, mode) = if inv > 0 && a % 4 != 0 { (if signer % 2 == 0 { 0 } else { signer }, 0) } else { (signer, mode) };
+            Case { op, a, alg, signer, settings, mode, def, inv }
+        })
 }
 
 fn main() {
     vh::quiet_panics();
     let run = Run::from_args("C40", "exploration");
     let selftest = std::env::var("VERIF_SELFTEST").unwrap_or_default();
-    run.set_rule("case = (operation pair, input selector, algorithm, signer variant [plain | harness TSA answering send_timestamp_request | TSA error | TSA url without answer | junk OCSP override | dynamic assertion | junk TSA answer | TSA + OCSP + dynamic assertion], settings variant [base | verify_after_sign off | verify_timestamp_trust on with an untrusted TSA | compressed manifests | CAWG identity decoding | auto time-stamp assertion through the context resolver], tamper / resolver mode, vh::defgen definition [0-3 assertions, 0-2 ingredients incl. signed ones, claim v1/v2, Create/Edit intents]). Pairs: sign/sign_async and save_to_stream(_async) over 16 synthesised container kinds, with_stream(_async) over 17 repository fixtures + 5 harness-signed assets (time stamp, OCSP junk, dynamic assertion, compressed, untrusted TSA) each pristine or tampered 3 ways, with_manifest_data_and_stream(_async), with_fragment(_async), sign_data_hashed_embeddable(_async), add_ingredient_from_stream(_async), add_ingredient_from_archive(_async) (4 archives), remote-manifest read through mock sync/async resolvers (6 answer modes). Non-trivial = a `_sync`-branch site beyond the entry point is exercised: TSA / OCSP / dynamic-assertion signer, verify-after-sign, remote fetch through the mock resolver, OCSP-/CAWG-/time-stamp-bearing input.");
+    run.set_rule("case = (operation pair, input selector, algorithm, signer variant [plain | harness TSA answering send_timestamp_request | TSA error | TSA url without answer | junk OCSP override | dynamic assertion | junk TSA answer | TSA + OCSP + dynamic assertion], settings variant [base | verify_after_sign off | verify_timestamp_trust on with an untrusted TSA | compressed manifests | CAWG identity decoding | auto time-stamp assertion through the context resolver], tamper / resolver mode, vh::defgen definition [0-3 assertions, 0-2 ingredients incl. signed ones, claim v1/v2, Create/Edit intents]). Pairs: sign/sign_async and save_to_stream(_async) over 16 synthesised container kinds, with_stream(_async) over 17 repository fixtures + 5 harness-signed assets (time stamp, OCSP junk, dynamic assertion, compressed, untrusted TSA) each pristine or tampered 3 ways, with_manifest_data_and_stream(_async), with_fragment(_async), sign_data_hashed_embeddable(_async), add_ingredient_from_stream(_async), add_ingredient_from_archive(_async) (4 archives), remote-manifest read through mock sync/async resolvers (6 answer modes). Additionally every pair except with_fragment is driven with signable-but-invalid-on-validation definitions (10 generated kinds of action-rule violations: c2pa.created without digitalSourceType, no created/opened first action, opened/placed/removed without ingredient reference, translated without languages, empty action name, placed/transcoded ingredient with the wrong relationship, unresolvable redaction uri, empty actions array; random company actions, titles, labels), crossed with verify_after_sign on/off; for reading/import pairs the input is an asset/sidecar/remote store/archive signed from such a definition; sign_box_hashed_embeddable(_async) over boxhash.jpg + boxhash.json / boxhash_with_exclusion.json and the bare application/c2pa box map. Non-trivial = a `_sync`-branch site beyond the entry point is exercised: TSA / OCSP / dynamic-assertion signer, verify-after-sign, remote fetch through the mock resolver, OCSP-/CAWG-/time-stamp-bearing input.");
     run.assume("the async signer / resolver / dynamic assertion delegate to the same objects as the sync ones; the harness TSA (openssl ts -reply) issues one token per request");
     run.assume("signing outcomes are compared after cross-run normalisation; a mismatch is judged only if a second sync run reproduces the first sync normal form");
     if let Err(e) = tsa() {
@@ -1006,34 +1354,56 @@ fn main() {
     // a small grid first: every operation x every signer variant x every settings variant (signing ops),
     // every input x pristine/tampered (reading ops)
     let mut grid: Vec<Case> = vec![];
-    for op in [0u8, 1, 5] {
+    for op in [0u8, 1, 5, 9] {
         for signer in 0..N_SIGNERS {
             for settings in 0..N_SETTINGS {
                 if run.quick() && op != 0 && (signer + settings) % 3 != 0 {
                     continue;
                 }
-                grid.push(Case { op, a: signer.wrapping_mul(5).wrapping_add(settings), alg: signer % 7, signer, settings, mode: 0, def: DefSpec { seed: (signer as u64) * 7 + settings as u64, intent: if settings == 5 { 3 } else { 0 }, n_assertions: 1, ..DefSpec::default() } });
+                grid.push(Case { op, a: signer.wrapping_mul(5).wrapping_add(settings), alg: signer % 7, signer, settings, mode: 0, def: DefSpec { seed: (signer as u64) * 7 + settings as u64, intent: if settings == 5 { 3 } else { 0 }, n_assertions: 1, ..DefSpec::default() }, inv: 0 });
             }
         }
     }
     for a in 0..inputs().assets.len() as u8 {
         for mode in 0..(if run.quick() { 2 } else { 4 }) {
-            grid.push(Case { op: 2, a, alg: 0, signer: 0, settings: if a % 2 == 0 { 0 } else { 4 }, mode, def: DefSpec::default() });
+            grid.push(Case { op: 2, a, alg: 0, signer: 0, settings: if a % 2 == 0 { 0 } else { 4 }, mode, def: DefSpec::default(), inv: 0 });
             if mode == 0 {
-                grid.push(Case { op: 6, a, alg: a % 3, signer: 0, settings: 0, mode, def: DefSpec::default() });
+                grid.push(Case { op: 6, a, alg: a % 3, signer: 0, settings: 0, mode, def: DefSpec::default(), inv: 0 });
             }
         }
     }
     for mode in 0..6u8 {
         for a in 0..2u8 {
-            grid.push(Case { op: 8, a, alg: 0, signer: 0, settings: 0, mode, def: DefSpec::default() });
+            grid.push(Case { op: 8, a, alg: 0, signer: 0, settings: 0, mode, def: DefSpec::default(), inv: 0 });
         }
     }
     for a in 0..4u8 {
-        grid.push(Case { op: 7, a, alg: 0, signer: 0, settings: 0, mode: 0, def: DefSpec::default() });
-        grid.push(Case { op: 3, a, alg: 0, signer: 0, settings: 0, mode: a, def: DefSpec::default() });
-        grid.push(Case { op: 4, a, alg: 0, signer: 0, settings: 0, mode: a, def: DefSpec::default() });
+        grid.push(Case { op: 7, a, alg: 0, signer: 0, settings: 0, mode: 0, def: DefSpec::default(), inv: 0 });
+        grid.push(Case { op: 3, a, alg: 0, signer: 0, settings: 0, mode: a, def: DefSpec::default(), inv: 0 });
+        grid.push(Case { op: 4, a, alg: 0, signer: 0, settings: 0, mode: a, def: DefSpec::default(), inv: 0 });
     }
+    // invalid-on-validation definitions: every pair x every kind x verify_after_sign on / off (signing pairs), seeds
+    // drawn from the run seed; the box-hashed embeddable pair additionally over its three box-hash inputs
+    let mut seeds = vh::rng::SplitMix64::new(run.seed ^ 0xC40_0000_0BAD);
+    let mut n_inv_grid = 0usize;
+    for op in [9u8, 0, 1, 5, 2, 3, 6, 7, 8] {
+        let signing = matches!(op, 0 | 1 | 5 | 9);
+        for kind in 0..INV_KINDS.len() as u8 {
+            let reps: u8 = if op == 9 { 3 } else { 2 };
+            for rep in 0..reps {
+                for settings in [0u8, 1] {
+                    if !signing && settings == 1 {
+                        continue;
+                    }
+                    let a = if op == 9 { rep } else { (seeds.below(64)) as u8 };
+                    let def = DefSpec { seed: seeds.next_u64() >> 16, ..DefSpec::default() };
+                    grid.push(Case { op, a, alg: (seeds.below(7)) as u8, signer: 0, settings, mode: 0, def, inv: kind + 1 });
+                    n_inv_grid += 1;
+                }
+            }
+        }
+    }
+    run.extra("grid_invalid_def_cases", json!(n_inv_grid));
     run.extra("grid_cases", json!(grid.len()));
     run.drive_enum_par("grid", grid, run.scale(4, 12), |c| judge(&run, c, &selftest));
 
